@@ -34,7 +34,8 @@ _DOM = {}
 
 def dom(typed):
     if typed not in _DOM:
-        _DOM[typed] = parse_domain({True: gp.DOMAIN_T, False: gp.DOMAIN_U, "flat": gp.DOMAIN_F}[typed])
+        _DOM[typed] = parse_domain({True: gp.DOMAIN_T, False: gp.DOMAIN_U, "flat": gp.DOMAIN_F,
+                                    "long-name": gp.DOMAIN_T.replace("(define (domain w)", "(define (domain w-num_2)")}[typed])
     return _DOM[typed]
 
 
@@ -95,7 +96,15 @@ def observe_problem(P):
         # the value is read from the public attribute, not from the printed text (printing is what C09 / C14 judge)
         fl[tuple(t[1])] = Fraction(repr(float(f.value)))
     goals = [tuple(sexp.read(g.untyped_representation)) for g in P.goal_state_predicates]
-    numgoals = sorted(sexp.dumps(norm(canon_cmp(sexp.read(e.to_pddl())))) for e in P.goal_state_fluents)
+    # numeric goals are read from the expression trees themselves (node values and children), not through the printer:
+    # a printing fault must not be able to hide in both sides of a comparison
+    def goal_tree(e):
+        from ..absmap import abs_expr, AbsError
+        try:
+            return abs_expr(e.root)
+        except (AbsError, AttributeError, TypeError):
+            return sexp.read(e.to_pddl())
+    numgoals = sorted(sexp.dumps(norm(canon_cmp(goal_tree(e)))) for e in P.goal_state_fluents)
     return {"name": P.name, "objects": objs, "atoms": atoms, "fluents": fl, "goals": goals, "numgoals": numgoals}
 
 
@@ -185,7 +194,7 @@ def check_case(case):
         for c in case["items"]:
             r.count("states")
             r.count("transitions")
-            P = guard(parse_problem, c["text"], dom(True))
+            P = guard(parse_problem, c["text"], dom(c.get("dom", True)))
             kind = c["what"].split(":")[0]
             if isinstance(P, Raised):
                 r.outcome("corrupt-rejected:" + kind)
